@@ -118,3 +118,27 @@ Proof.
   intros s' H. rewrite session_app. cbn [session]. rewrite !entry_is_load. fold s'.
   rewrite (leniency_noninterference pf s' d H). reflexivity.
 Qed.
+
+(* ---- fourth wave: the loaded CAS works with the SUPPLIED type system, whatever it defines ---- *)
+Theorem loaded_ts_is_supplied s dflt : loaded_ts s dflt = s.
+Proof. reflexivity. Qed.
+
+(* a strictly loaded CAS refuses, through every handle, a structure of a type the supplied type system does not define -
+   whatever a default type system would define, and also when the supplied one defines nothing of its own *)
+Theorem loaded_strict_refuses pf s dflt src t d c path tn :
+  load_entry pf src s false t d = Ok c -> contains_exact s tn = false -> loaded_add s dflt c path tn = Err ERuntime.
+Proof.
+  intros H N. rewrite entry_is_load in H. unfold loaded_add. rewrite loaded_ts_is_supplied.
+  apply strict_add_refuses; [exact (lenient_persists pf s false d c path H)|exact N].
+Qed.
+
+Theorem loaded_lenient_accepts pf s dflt src t d c path tn :
+  load_entry pf src s true t d = Ok c -> loaded_add s dflt c path tn = Ok tt.
+Proof.
+  intros H. rewrite entry_is_load in H. unfold loaded_add.
+  apply lenient_add_accepts. exact (lenient_persists pf s true d c path H).
+Qed.
+
+Theorem loaded_strict_accepts_own pf s dflt src t d c path tn :
+  load_entry pf src s false t d = Ok c -> contains_exact s tn = true -> loaded_add s dflt c path tn = Ok tt.
+Proof. intros _ N. unfold loaded_add. rewrite loaded_ts_is_supplied. apply strict_add_accepts_own. exact N. Qed.
